@@ -37,3 +37,25 @@ Proof. vm_compute. reflexivity. Qed.
 
 Lemma data_coding_rows_complete : map fst data_coding_rows = all256.
 Proof. vm_compute. reflexivity. Qed.
+
+(* CommandStatus.String / .Error over 0..0x4FF and the corners of the 32-bit
+   range: no row is a panic, every text is the model's (the name if the code
+   has one, else the eight hex digits) *)
+Definition status_row_ok (row : N * N * N * bytes) : bool :=
+  let '(s, c1, c2, t) := row in
+  (c1 =? 0) && (c2 =? 0) && beq_obytes (command_status_string command_status_named s) (Ok t).
+Lemma command_status_rows_ok : forallb status_row_ok command_status_rows = true.
+Proof. vm_compute. reflexivity. Qed.
+Lemma command_status_rows_complete :
+  firstn 1280 (map (fun r => fst (fst (fst r))) command_status_rows) = map N.of_nat (seq 0 1280) /\
+  existsb (N.eqb 4294967295) (map (fun r => fst (fst (fst r))) command_status_rows) = true.
+Proof. split; vm_compute; reflexivity. Qed.
+Lemma command_status_code s c1 c2 t : In (s, c1, c2, t) command_status_rows ->
+  c1 = 0 /\ c2 = 0 /\ command_status_string command_status_named s = Ok t.
+Proof.
+  intros Hin. pose proof command_status_rows_ok as H. rewrite forallb_forall in H. specialize (H _ Hin).
+  unfold status_row_ok in H. apply andb_true_iff in H as [H H3]. apply andb_true_iff in H as [H1 H2].
+  apply N.eqb_eq in H1, H2. repeat split; auto.
+  destruct (command_status_string command_status_named s) as [x| |]; cbn [beq_obytes] in H3; try discriminate.
+  apply beq_bytes_eq in H3. congruence.
+Qed.
